@@ -49,8 +49,11 @@ pub fn literal(v: &Value) -> String {
             if n < 0 { format!("({n})") } else { n.to_string() }
         }
         "float" => {
-            let h = v.get("v").or_else(|| v.get("h")).and_then(Value::as_i64).unwrap();
-            let f = h as f64 / 2.0;
+            let f = if let Some(b) = v.get("bits").and_then(Value::as_str) {
+                f64::from_bits(b.parse::<u64>().unwrap())
+            } else {
+                v.get("v").or_else(|| v.get("h")).and_then(Value::as_i64).unwrap() as f64 / 2.0
+            };
             if f < 0.0 { format!("({f:?})") } else { format!("{f:?}") }
         }
         "string" => {
